@@ -3,6 +3,8 @@ package main
 import (
 	"fmt"
 	"go/types"
+	"golang.org/x/tools/go/ssa"
+	"sort"
 	"strings"
 )
 
@@ -73,6 +75,16 @@ func (ft *FT) havocAll(st *State) {
 			keep[k] = v
 		}
 	}
+	// `decl frozen pkg.T` (in the contract file of the function's package): values of struct type T are
+	// never written after construction - their field heaps and element heaps survive a havoc. The
+	// declaration is an assumption of the property unless a `types-frozen` scan backs it.
+	for _, fz := range ft.frozenTypes() {
+		for k := range ft.heaps {
+			if k == "E!S!"+fz || strings.HasPrefix(k, "F!"+fz+".") {
+				keep[k] = ft.get(st, k)
+			}
+		}
+	}
 	// keys that survive a havoc must be materialised first (an absent key would read as the new epoch's base version)
 	for _, k := range []string{"HELD", "$panicking"} {
 		if _, ok := keep[k]; !ok && ft.heaps[k] != nil {
@@ -80,10 +92,82 @@ func (ft *FT) havocAll(st *State) {
 		}
 	}
 	nextOld := ft.get(st, "$next")
+	// ownership: a map made by this function whose reference never leaves it (it is only read, updated,
+	// ranged over and returned) cannot be touched by the code that is being havocked
+	type keep2 struct {
+		k   string
+		old Term
+	}
+	var owned []keep2
+	priv := ft.privateMaps()
+	if len(priv) > 0 {
+		for _, k := range sortedHeapKeys(ft.heaps) {
+			if strings.HasPrefix(k, "MD!") || strings.HasPrefix(k, "MV!") || strings.HasPrefix(k, "ML!") {
+				owned = append(owned, keep2{k, ft.get(st, k)})
+			}
+		}
+	}
 	st.m = keep
 	st.epoch = ft.ctr
 	nn := ft.get(st, "$next")
 	ft.assume("true", app("<=", nextOld, nn))
+	for _, o := range owned {
+		nw := ft.get(st, o.k)
+		for _, v := range priv {
+			ft.assume("true", eq(app("select", nw, v), app("select", o.old, v)))
+		}
+	}
+}
+
+func sortedHeapKeys(m map[string]*heapInfo) []string {
+	var ks []string
+	for k := range m {
+		ks = append(ks, k)
+	}
+	sort.Strings(ks)
+	return ks
+}
+
+// privateMaps: terms of the maps this function has made (and already translated) that never escape:
+// every use is a lookup, an update of the map itself, a range, len/delete, a debug reference or a return.
+func (ft *FT) privateMaps() []Term {
+	if ft.privMaps == nil {
+		ft.privMaps = map[ssa.Value]bool{}
+		for _, b := range ft.fn.Blocks {
+			for _, ins := range b.Instrs {
+				mm, ok := ins.(*ssa.MakeMap)
+				if !ok || mm.Referrers() == nil {
+					continue
+				}
+				private := true
+				for _, r := range *mm.Referrers() {
+					switch u := r.(type) {
+					case *ssa.Lookup:
+						private = private && u.X == ssa.Value(mm) && u.Index != ssa.Value(mm)
+					case *ssa.MapUpdate:
+						private = private && u.Map == ssa.Value(mm) && u.Key != ssa.Value(mm) && u.Value != ssa.Value(mm)
+					case *ssa.Range, *ssa.DebugRef, *ssa.Return:
+					case *ssa.Call:
+						bi, isB := u.Call.Value.(*ssa.Builtin)
+						private = private && isB && (bi.Name() == "len" || bi.Name() == "delete")
+					default:
+						private = false
+					}
+				}
+				if private {
+					ft.privMaps[mm] = true
+				}
+			}
+		}
+	}
+	var out []Term
+	for v := range ft.privMaps {
+		if ts, ok := ft.env[v]; ok && len(ts) == 1 {
+			out = append(out, ts[0])
+		}
+	}
+	sort.Strings(out)
+	return out
 }
 
 // pathStep is a step into a struct datatype or SMT array value.
@@ -234,4 +318,20 @@ func (ft *FT) keysOfLoc(l *Loc) []string {
 		ks = append(ks, fieldKey(l.typ, stt.Field(i)))
 	}
 	return ks
+}
+
+func (ft *FT) frozenTypes() []string {
+	pkg := ft.fnPkg()
+	if pkg == nil {
+		return nil
+	}
+	var out []string
+	for _, d := range ft.eng.cons.Decls[pkgKey(pkg)] {
+		f := strings.Fields(d)
+		if len(f) == 2 && f[0] == "frozen" {
+			out = append(out, f[1])
+			ft.note("decl frozen " + f[1] + ": values of this type are assumed never to be written after construction")
+		}
+	}
+	return out
 }
